@@ -1,8 +1,12 @@
 package c11
 
 import (
+	"context"
 	"sort"
 	"strings"
+
+	"github.com/bufbuild/buf/private/gen/data/datawkt"
+	"github.com/bufbuild/buf/private/pkg/storage"
 )
 
 // module is one local module of a workspace: Dir is the module root relative to the workspace root
@@ -30,7 +34,8 @@ type wsDef struct {
 	// nil means no lint/breaking part for this workspace (multi-module workspaces: a single image has one
 	// config, a workspace has one per module, so the property's comparison is not well defined there).
 	V0 map[string]string
-	// Stress marks workspaces whose point is text-encoding stress.
+	// Note names what a workspace is there for, for the vacuity counters: "default-config" (the buf.yaml has
+	// no lint/breaking section), "vendored-wkt" (local files at well-known-type paths), "legacy-features".
 	Note string
 }
 
@@ -108,7 +113,8 @@ breaking:
 func workspaces(quick bool) []*wsDef {
 	all := []*wsDef{
 		wsOpts(), wsExt(), wsSvc(), wsTwoMod(), wsNest(), wsPlain(), wsAnyOpt(), wsComments(), wsLintCfg(), wsScoped(),
-		wsEditions(), wsWorkV1(), wsGroups(), wsSubdirModule(), wsOptsV2(), wsSvcNoSource(), wsNestNamed(),
+		wsV2Default(), wsVendorWKT(), wsLegacy(),
+		wsV2DefaultModules(), wsVendorWKTOne(), wsEditions(), wsWorkV1(), wsGroups(), wsSubdirModule(), wsOptsV2(), wsSvcNoSource(), wsNestNamed(),
 		wsThreeMod(), wsAnyOptProto2(), wsWeird(), wsBig(),
 	}
 	var out []*wsDef
@@ -1398,5 +1404,327 @@ func wsBig() *wsDef {
 			"base/m.proto":     f("base"),
 		},
 		Modules: []module{{".", "buf.test/acme/big"}},
+	}
+}
+
+// ---------------------------------------------------------------------------------------------
+// Strengthening round 2: which DEFAULT configuration applies, files at well-known-type paths, legacy
+// proto2 features at every nesting position.
+
+// v2default is a workspace whose buf.yaml is version v2 and has NO lint and NO breaking section, so that
+// both routes have to fall back to a default rule set: the per-module default on the source route, the
+// "image default" chosen in bufctl on the image route. The protos are written so that the v1 and the v2
+// defaults give different results: a proto2 required field (FIELD_NOT_REQUIRED is v2-only), a package
+// import cycle a -> b -> a that is not a file cycle (PACKAGE_NO_IMPORT_CYCLE is v2-only), comment
+// ignores that suppress findings (honoured by default in v2 only); the previous version differs by a
+// cardinality change (FIELD_SAME_LABEL in v1, FIELD_SAME_CARDINALITY in v2) and a default value change
+// (FIELD_SAME_DEFAULT is v2-only). The --config menu entries without a lint/breaking section (c11.go) put
+// every other lint/breaking workspace into the same situation.
+const v2dA = `syntax = "proto2";
+package a;
+import "b/b.proto";
+// A has a required field.
+message A {
+  required string id = 1;
+  optional b.B b = 2;
+  // buf:lint:ignore FIELD_LOWER_SNAKE_CASE
+  optional string IgnoredBad = 3;
+  optional string NotIgnoredBad = 4;
+  optional int32 level = 5 [default = 7];
+  repeated string names = 6;
+}
+// buf:lint:ignore ENUM_PASCAL_CASE
+enum ignored_enum {
+  IGNORED_ENUM_UNSPECIFIED = 0;
+}
+`
+
+const v2dAV0 = `syntax = "proto2";
+package a;
+import "b/b.proto";
+message A {
+  required string id = 1;
+  optional b.B b = 2;
+  optional string IgnoredBad = 3;
+  optional string NotIgnoredBad = 4;
+  optional int32 level = 5 [default = 3];
+  optional string names = 6;
+  optional string gone = 7;
+}
+enum ignored_enum {
+  IGNORED_ENUM_UNSPECIFIED = 0;
+  IGNORED_ENUM_GONE = 1;
+}
+`
+
+const v2dLeaf = `syntax = "proto3";
+package a;
+// Leaf is imported by package b: together with a/a.proto importing b/b.proto the packages form a cycle.
+message Leaf {
+  string v = 1;
+}
+`
+
+const v2dB = `syntax = "proto3";
+package b;
+message B {
+  string v = 1;
+}
+`
+
+const v2dBack = `syntax = "proto3";
+package b;
+import "a/leaf.proto";
+message Back {
+  a.Leaf leaf = 1;
+  // buf:lint:ignore FIELD_LOWER_SNAKE_CASE
+  string AlsoIgnored = 2;
+}
+`
+
+const v2dBackV0 = `syntax = "proto3";
+package b;
+import "a/leaf.proto";
+message Back {
+  a.Leaf leaf = 1;
+  string AlsoIgnored = 2;
+  repeated int32 was_repeated = 3;
+}
+`
+
+func wsV2Default() *wsDef {
+	return &wsDef{
+		Name: "v2default", Quick: true,
+		Files: map[string]string{
+			"buf.yaml":     "version: v2\n",
+			"a/a.proto":    v2dA,
+			"a/leaf.proto": v2dLeaf,
+			"b/b.proto":    v2dB,
+			"b/back.proto": v2dBack,
+		},
+		Modules: []module{{".", ""}},
+		V0:      map[string]string{"a/a.proto": v2dAV0, "b/back.proto": v2dBackV0},
+		Note:    "default-config",
+	}
+}
+
+// the same trees under a v2 buf.yaml that names its one module explicitly (still no lint/breaking section)
+func wsV2DefaultModules() *wsDef {
+	w := wsV2Default()
+	w.Name, w.Quick = "v2default-modules", false
+	w.Files["buf.yaml"] = `version: v2
+modules:
+  - path: .
+    name: buf.test/acme/v2d
+`
+	w.Modules = []module{{".", "buf.test/acme/v2d"}}
+	return w
+}
+
+// wktText returns buf's embedded copy of a well-known type file.
+func wktText(path string) string {
+	data, err := storage.ReadPath(context.Background(), datawkt.ReadBucket, path)
+	if err != nil {
+		panic("embedded well-known type " + path + ": " + err.Error())
+	}
+	return string(data)
+}
+
+// vendored copy of timestamp.proto whose text differs from the embedded one: comments, an option and a field
+const vendoredTimestamp = `// A vendored copy that is NOT the copy embedded in buf.
+syntax = "proto3";
+
+package google.protobuf;
+
+option go_package = "google.golang.org/protobuf/types/known/timestamppb";
+option java_package = "com.example.vendored";
+
+// Timestamp, vendored.
+message Timestamp {
+  int64 seconds = 1;
+  int32 nanos = 2;
+  // zone_offset exists in the vendored copy only.
+  int32 zone_offset = 3;
+}
+`
+
+const vendorUser = `syntax = "proto3";
+package v;
+import "google/protobuf/duration.proto";
+import "google/protobuf/timestamp.proto";
+import "google/protobuf/wrappers.proto";
+// User uses a vendored well-known type with changed text (timestamp), a vendored one with the embedded
+// text (duration) and one that is not vendored (wrappers).
+message User {
+  google.protobuf.Timestamp at = 1;
+  google.protobuf.Duration ttl = 2;
+  google.protobuf.StringValue note = 3;
+}
+`
+
+// a file below google/protobuf/ that is not a well-known type, importing a vendored and an implicit one
+const vendorExtra = `syntax = "proto3";
+package google.protobuf;
+import "google/protobuf/timestamp.proto";
+import "google/protobuf/empty.proto";
+message NotWellKnown {
+  Timestamp t = 1;
+  Empty e = 2;
+}
+`
+
+// vendorwkt carries its own files at well-known-type paths, in a module other than the one that uses
+// them: every route (directory, archives, `buf export` output, image) has to take the workspace's copy,
+// as a target file, and not the copy embedded in buf.
+func wsVendorWKT() *wsDef {
+	return &wsDef{
+		Name: "vendorwkt", Quick: true,
+		Files: map[string]string{
+			"buf.yaml": `version: v2
+modules:
+  - path: proto
+  - path: third_party
+    name: buf.test/acme/wkt
+`,
+			"proto/v/user.proto":                          vendorUser,
+			"third_party/google/protobuf/timestamp.proto": vendoredTimestamp,
+			"third_party/google/protobuf/duration.proto":  wktText("google/protobuf/duration.proto"),
+			"third_party/google/protobuf/extra.proto":     vendorExtra,
+		},
+		Modules: []module{{"proto", ""}, {"third_party", "buf.test/acme/wkt"}},
+		Note:    "vendored-wkt",
+	}
+}
+
+// the same files in one module at the workspace root, no buf.yaml
+func wsVendorWKTOne() *wsDef {
+	return &wsDef{
+		Name: "vendorwkt-one", Quick: false,
+		Files: map[string]string{
+			"v/user.proto":                    vendorUser,
+			"google/protobuf/timestamp.proto": vendoredTimestamp,
+			"google/protobuf/duration.proto":  wktText("google/protobuf/duration.proto"),
+			"google/protobuf/extra.proto":     vendorExtra,
+		},
+		Modules: []module{{".", ""}},
+		Note:    "vendored-wkt",
+	}
+}
+
+// legacy has the proto2 features that protobuf-go cannot link (and that buf therefore strips from the copy
+// of the descriptors its resolver is made from) at every structural position: message_set_wire_format on a
+// top-level message, one and two levels below a message that has nothing legacy of its own, below a
+// message that is a message set itself, after a legacy sibling; "extensions N to max" of a message set
+// (end 2^31-1, above the 2^29-1 of ordinary messages) at the same positions; extensions of a message set
+// with a number above 2^29-1 declared at file level and inside a nested message; the weak field option one
+// and two levels down. The files use custom options, so every text encoding and every read of the image
+// has to consult the resolver.
+const legacyOpt = `syntax = "proto2";
+package l;
+import "google/protobuf/descriptor.proto";
+extend google.protobuf.MessageOptions {
+  optional string tag = 55001;
+}
+extend google.protobuf.FieldOptions {
+  optional int32 rank = 55002;
+}
+`
+
+const legacySets = `syntax = "proto2";
+package l;
+import "l/opt.proto";
+
+// Plain has no legacy feature of its own, only below it.
+message Plain {
+  option (l.tag) = "plain";
+  optional string name = 1 [(l.rank) = 1];
+  // depth 1
+  message Set {
+    option message_set_wire_format = true;
+    extensions 4 to max;
+  }
+  message Holder {
+    optional string value = 1;
+    // depth 2
+    message Deep {
+      option message_set_wire_format = true;
+      option (l.tag) = "deep";
+      extensions 100 to max;
+    }
+    message WeakDeep {
+      optional Item item = 1 [weak = true];
+    }
+  }
+  message Item {
+    optional int32 n = 1;
+    optional Holder holder = 2 [weak = true, (l.rank) = 2];
+    // the message-set idiom: the extension lives in the message it carries, with a number above 2^29-1
+    extend Set {
+      optional Item in_set = 1000000000;
+    }
+    extend TopSet {
+      optional Item in_top = 4;
+    }
+  }
+}
+
+// TopSet is a message set itself and has another one below it.
+message TopSet {
+  option message_set_wire_format = true;
+  extensions 4 to max;
+  message Inner {
+    option message_set_wire_format = true;
+    extensions 1 to 10, 536870000 to max;
+  }
+}
+
+// Later comes after a legacy sibling and is plain again.
+message Later {
+  option (l.tag) = "later";
+  optional Plain p = 1;
+  message Tail {
+    option message_set_wire_format = true;
+    extensions 1000 to 2147483646;
+  }
+}
+
+extend TopSet {
+  optional Later later = 2000000000;
+}
+extend Plain.Set {
+  optional Later later_in_set = 5;
+}
+`
+
+// only below the SECOND top-level message, and no custom option in this file
+const legacyUse = `syntax = "proto2";
+package m;
+import "l/sets.proto";
+message First {
+  optional l.Plain plain = 1;
+  optional l.TopSet top = 2;
+}
+message Second {
+  optional l.Plain.Set set = 1;
+  message Low {
+    optional First first = 1 [weak = true];
+    message Lower {
+      option message_set_wire_format = true;
+      extensions 7 to max;
+    }
+  }
+}
+`
+
+func wsLegacy() *wsDef {
+	return &wsDef{
+		Name: "legacy", Quick: true,
+		Files: map[string]string{
+			"l/opt.proto":  legacyOpt,
+			"l/sets.proto": legacySets,
+			"m/use.proto":  legacyUse,
+		},
+		Modules: []module{{".", ""}},
+		Note:    "legacy-features",
 	}
 }
